@@ -438,7 +438,14 @@ pub fn run(ctx: &Ctx) -> CheckResult {
         let mut vs = enumerate_faults(0, &g[0], &FaultSpace { read_side: true, write_side: false, meta_side: true, budgets: Budgets::Boundaries, seed: 0 });
         vs.extend(noise_variants(0, true, false));
         if quick {
+            // (the lying-size faults always run: there are two per stat call and they are cheap)
+            let sizes: Vec<Variant> = vs.iter().filter(|v| v.tag.contains(":size=")).cloned().collect();
             vs = thin(&vs, 24, rng::mix(w.ctx.seed, &base.name, 3));
+            for sv in sizes {
+                if !vs.iter().any(|v| v.tag == sv.tag) {
+                    vs.push(sv);
+                }
+            }
         }
         for v in vs {
             let plan = v.plan.as_ref().map(|p| p.1.clone()).unwrap_or_default();
